@@ -165,4 +165,15 @@ pub(crate) mod __verif_kani {
         while i < 8 { if i < len { let x = val(h, i); if x <= v { best = Some((i, x)); } } i += 1; }
         assert!(p == best);
     });
+
+    //@ kind=P props=C03 fn=u64::leading_zeros : cross-check of the trusted Verus lemma axiom_lz_top_bit (unit c03_build): for every non-zero word the bit at position 63 - leading_zeros is set and everything above it is clear
+    #[kani::proof]
+    pub fn c03_leading_zeros_top_bit() {
+        let q: u64 = kani::any();
+        kani::assume(q != 0);
+        let lz = q.leading_zeros();
+        assert!(lz <= 63);
+        assert!((q >> (63 - lz)) & 1 == 1);
+        assert!(lz == 0 || q >> (64 - lz) == 0);
+    }
 }
